@@ -367,6 +367,35 @@ def callback_tail_shapes():
             yield [('let', 'let', 'y', None, P('b', 'ival')), h] + t
 
 
+def void_ternary_bodies():
+    """callback bodies with a conditional EXPRESSION whose arms are void (calls, property writes, assignments), used as a
+    statement: alone, nested, first / last among other statements, inside if / switch / block"""
+    eff = lambda o, m, *a: ('callm', ('obj', o), m, list(a))
+    arms = [eff('a', 'reset'), eff('b', 'poke', lit('int', 1)), ('setprop', ('obj', 'a'), 'ival', ('bin', '+', P('b', 'ival'), lit('int', 1))),
+            ('log', 'log', [P('a', 'sval')])]
+    conds = [P('b', 'flag'), ('bin', '&&', P('b', 'flag'), P('c', 'flag')), ('bin', '<', P('c', 'ival'), lit('int', 3))]
+    base = []
+    for c in conds:
+        for i, x in enumerate(arms):
+            for j, y in enumerate(arms):
+                if i != j:
+                    base.append(('ternstmt', c, x, y))
+    nested = [('ternstmt', conds[0], ('ternstmt', conds[2], arms[0], arms[1]), arms[2]),
+              ('ternstmt', conds[0], arms[3], ('ternstmt', conds[1], arms[1], arms[0])),
+              ('ternstmt', conds[1], ('ternstmt', conds[0], arms[0], arms[1]), ('ternstmt', conds[2], arms[2], arms[3]))]
+    for t in base + nested:
+        yield [t]
+    for t in base[::5] + nested:
+        yield [eff('c', 'reset'), t]
+        yield [t, eff('c', 'reset')]
+        yield [t, ('let', 'let', 'x', None, P('a', 'ival'))]
+        yield [('if', P('a', 'flag'), [t], None), eff('c', 'reset')]
+        yield [('if', P('a', 'flag'), [eff('c', 'reset')], [t])]
+        yield [('switch', P('a', 'ival'), [(lit('int', 1), [t, ('break',)]), (None, [eff('c', 'reset')])])]
+        yield [('block', [t]), t]
+        yield [('let', 'let', 'x', None, lit('int', 0)), ('ternstmt', conds[0], ('assign', 'x', P('a', 'ival')), ('assign', 'x', P('b', 'ival'))), ('setprop', ('obj', 'c'), 'ival', ('local', 'x'))]
+
+
 def tails_after_skeletons(depth):
     """callback bodies: every switch skeleton / nesting used as the head, followed by a declaration-only tail.
     Inner `return r` becomes `return;`; the accumulator stays as an ordinary local."""
